@@ -391,6 +391,77 @@ def _desugar_match(tree: ast.AST) -> ast.AST:
     return tree
 
 
+
+class _PredicateInliner(ast.NodeTransformer):
+    """Reads a call of a module-level one-expression function as that expression (load-time normalisation, like the match
+    desugaring): `def _is_subquery(x): return isinstance(x, (QueryBuilder, _SetOperation))` is a NAME for a type test,
+    and every analysis that judges tests by their shape (guards, narrowing, allowed conditions) has to see the test.
+    Only calls whose arguments are plain references (names, attribute chains, constants) are replaced, so no
+    evaluation is duplicated or reordered; everything else is left as it is (the evaluator runs the function)."""
+
+    def __init__(self, preds: dict):
+        self.preds = preds      # local name -> (params, expr)
+        self.count = 0
+
+    @staticmethod
+    def _plain(e) -> bool:
+        while isinstance(e, ast.Attribute):
+            e = e.value
+        return isinstance(e, (ast.Name, ast.Constant))
+
+    def visit_Call(self, node):
+        self.generic_visit(node)
+        if isinstance(node.func, ast.Name) and node.func.id in self.preds and not node.keywords:
+            params, expr = self.preds[node.func.id]
+            if len(node.args) == len(params) and all(self._plain(a) for a in node.args):
+                mp = dict(zip(params, node.args))
+
+                class Sub(ast.NodeTransformer):
+                    def visit_Name(self, n):
+                        if n.id in mp and isinstance(n.ctx, ast.Load):
+                            return ast.copy_location(_copy_expr(mp[n.id]), n)
+                        return n
+                new = Sub().visit(_copy_expr(expr))
+                self.count += 1
+                return ast.copy_location(new, node)
+        return node
+
+    def visit_FunctionDef(self, node):
+        if node.name in self.preds and getattr(node, "_is_predicate_def", False):
+            return node         # the definition itself stays
+        self.generic_visit(node)
+        return node
+
+
+def _copy_expr(e):
+    import copy as _copy
+    return _copy.deepcopy(e)
+
+
+def _simple_predicates(tree: ast.Module) -> dict:
+    """module-level `def f(a, b): [docstring] return <expr>` without decorators, defaults, *args; the expression reads
+    only its parameters and global names and contains no call of f itself, no lambda, no comprehension, no walrus"""
+    out = {}
+    for st in tree.body:
+        if not isinstance(st, ast.FunctionDef) or st.decorator_list:
+            continue
+        a = st.args
+        if a.vararg or a.kwarg or a.kwonlyargs or a.defaults or a.kw_defaults or not (1 <= len(a.posonlyargs) + len(a.args) <= 3):
+            continue
+        body = [b for b in st.body if not (isinstance(b, ast.Expr) and isinstance(b.value, ast.Constant) and isinstance(b.value.value, str))]
+        if len(body) != 1 or not isinstance(body[0], ast.Return) or body[0].value is None:
+            continue
+        expr = body[0].value
+        if any(isinstance(n, (ast.Lambda, ast.ListComp, ast.SetComp, ast.DictComp, ast.GeneratorExp, ast.NamedExpr, ast.Yield, ast.YieldFrom, ast.Await)) for n in ast.walk(expr)):
+            continue
+        if any(isinstance(n, ast.Call) and isinstance(n.func, ast.Name) and n.func.id == st.name for n in ast.walk(expr)):
+            continue
+        params = [x.arg for x in list(a.posonlyargs) + list(a.args)]
+        # every parameter is read at most once, or the substituted argument is a plain reference anyway (checked at the call)
+        st._is_predicate_def = True
+        out[st.name] = (params, expr)
+    return out
+
 class Module:
     def __init__(self, program: "Program", name: str, path: Path, relpath: str):
         self.program = program
@@ -438,11 +509,42 @@ class Program:
                 parts = parts[:-1]
             name = ".".join(parts)
             self.modules[name] = Module(self, name, p, str(rel))
+        self._inline_predicates()
         h = hashlib.sha256()
         for m in self.modules.values():
             h.update(m.relpath.encode())
             h.update(m.source.encode())
         self.digest = h.hexdigest()
+
+    def _inline_predicates(self) -> None:
+        """calls of module-level one-expression functions are read as the expression (see _PredicateInliner); a function
+        imported from a sibling module is read the same way when every global name its expression uses means something
+        in the importing module as well"""
+        preds = {m.name: _simple_predicates(m.tree) for m in self.modules.values()}
+        self.inlined_predicate_calls = 0
+        for m in self.modules.values():
+            top = {n.name for n in m.tree.body if isinstance(n, (ast.FunctionDef, ast.ClassDef))} | {
+                t.id for n in m.tree.body if isinstance(n, ast.Assign) for t in n.targets if isinstance(t, ast.Name)}
+            imported = {}
+            for n in ast.walk(m.tree):
+                if isinstance(n, ast.ImportFrom):
+                    mod = self._abs_import(m, n)
+                    for a in n.names:
+                        imported[a.asname or a.name] = (mod, a.name)
+            local = dict(preds[m.name])
+            for lname, (mod, oname) in imported.items():
+                if mod in preds and oname in preds[mod] and lname not in local:
+                    params, expr = preds[mod][oname]
+                    free = {x.id for x in ast.walk(expr) if isinstance(x, ast.Name)} - set(params) - set(dir(__import__("builtins")))
+                    if free <= top | set(imported):
+                        local[lname] = (params, expr)
+            if not local:
+                continue
+            tr = _PredicateInliner(local)
+            m.tree = tr.visit(m.tree)
+            if tr.count:
+                ast.fix_missing_locations(m.tree)
+                self.inlined_predicate_calls += tr.count
 
     def _index(self) -> None:
         counts: dict[str, int] = {}
